@@ -78,6 +78,13 @@ def run(ck, m):
     link_replies(ck, m)
     table_emits_once(ck, m)
     known_member_is_a_key_test(ck, m)
+    # a candidacy is answered by a candidacy only from the strictly older side of ONE total order: the decision table of election_eval
+    # (C07.a) — an order that the two nodes evaluate differently (different operands on the two sides) makes each answer the other for ever
+    from nl import alias as _alias14
+    from props import C07 as _C07
+    ck.rule('C14.i', 'an election exchange dies out: election_eval answers a candidacy with its own only when it is strictly older by the process id '
+                     'alone (C07.a decision table, repeated) — a tie-break on operands the two nodes do not agree on keeps both answering')
+    _alias14.repeat(ck, m, 'C07', ('C07.a',), 'C14.i', runner=_C07._run)
 
 
 def _run(ck, m):
